@@ -2,14 +2,15 @@ import io
 from . import ref
 
 
-def replay_truncate(kind, blocked, lengths, t):
+def replay_truncate(kind, blocked, lengths, t, items=None):
     from cardutil import mciipm
     f = io.BytesIO()
     if kind == 'vbs':
-        items = [ref.content(n, i) for i, n in enumerate(lengths)]
+        items = items or [ref.content(n, i) for i, n in enumerate(lengths)]
         w = mciipm.VbsWriter(f, blocked=blocked)
     else:
-        items = [{'MTI': '1144', 'DE2': ''.join(chr(65 + (j + i) % 26) for j in range(n))} for i, n in enumerate(lengths)]
+        items = [{'MTI': '1144', 'DE2': v} for v in items] if items else \
+            [{'MTI': '1144', 'DE2': ''.join(chr(65 + (j + i) % 26) for j in range(n))} for i, n in enumerate(lengths)]
         w = mciipm.IpmWriter(f, blocked=blocked)
     for it in items:
         w.write(it)
